@@ -47,5 +47,8 @@ inline std::string join(const std::vector<std::string>& v, const char* sep = " "
 }
 template <class T> inline std::string str(T x) { std::ostringstream os; os << x; return os.str(); }
 }
-// component entry points: one result line per case line
-std::string run_bs(const hv::Args& args);
+// component registry: each h_*.cpp registers its runner (`static hv::Reg r("name", &fn);`)
+namespace hv {
+typedef std::string (*Runner)(const Args&);
+struct Reg { Reg(const char* name, Runner r); };
+}
